@@ -235,6 +235,78 @@ def enc_xml(algos):
             'xmlns:enc="http://www.w3.org/2001/04/xmlenc#">' + items + "</encryption>").encode()
 
 
+def ole_bytes(entries):
+    """Minimal OLE2 / CFB v3 writer (512-byte sectors, no mini stream: stream data is zero-padded to the 4096-byte cutoff).
+    entries: [(name, data-bytes | None for a storage | [(child name, bytes), ...] for a storage with streams)]."""
+    FREE, EOC, FATSECT, NOSTREAM = 0xFFFFFFFF, 0xFFFFFFFE, 0xFFFFFFFD, 0xFFFFFFFF
+    flat = []      # [name, type, child list | None, data]
+
+    def add(items, parent):
+        ids = []
+        for name, payload in sorted(items, key=lambda e: (len(e[0]), e[0].upper())):
+            idx = len(flat)
+            if isinstance(payload, (bytes, bytearray)):
+                flat.append([name, 2, None, bytes(payload)])
+            else:
+                flat.append([name, 1, [], b""])
+                flat[idx][2] = add(payload or [], idx)
+            ids.append(idx)
+        return ids
+    flat.append(["Root Entry", 5, None, b""])
+    flat[0][2] = add(entries, 0)
+    n_dir = (len(flat) + 3) // 4
+    streams, sect = {}, 1 + n_dir          # sector 0 = FAT, then directory sectors, then stream data
+    for i, e in enumerate(flat):
+        if e[1] == 2:
+            data = e[3] + b"\0" * max(0, 4096 - len(e[3]))
+            data += b"\0" * (-len(data) % 512)
+            streams[i] = (sect, len(data), data)
+            sect += len(data) // 512
+    assert sect <= 128, "one FAT sector only"
+    fat = [FREE] * 128
+    fat[0] = FATSECT
+    for k in range(n_dir):
+        fat[1 + k] = 2 + k if k + 1 < n_dir else EOC
+    for i, (start, size, _d) in streams.items():
+        for k in range(size // 512):
+            fat[start + k] = start + k + 1 if k + 1 < size // 512 else EOC
+    sib = {}
+    for e in flat:
+        kids = e[2] or []
+        for a, b in zip(kids, kids[1:]):
+            sib[a] = b                      # a right-leaning chain, in CFB name order
+    dirbytes = b""
+    for i, (name, typ, kids, data) in enumerate(flat):
+        nm = name.encode("utf-16-le") + b"\0\0"
+        start, size = (streams[i][0], max(len(data), 4096)) if typ == 2 else ((EOC, 0))
+        dirbytes += (nm.ljust(64, b"\0") + struct.pack("<HBB", len(nm), typ, 1) + struct.pack("<III", NOSTREAM, sib.get(i, NOSTREAM), kids[0] if kids else NOSTREAM)
+                     + b"\0" * 16 + struct.pack("<I", 0) + b"\0" * 16 + struct.pack("<II", start, size) + b"\0" * 4)
+    dirbytes += (b"\0" * 64 + struct.pack("<HBB", 0, 0, 0) + struct.pack("<III", NOSTREAM, NOSTREAM, NOSTREAM) + b"\0" * 44) * (n_dir * 4 - len(flat))
+    header = (b"\xd0\xcf\x11\xe0\xa1\xb1\x1a\xe1" + b"\0" * 16 + struct.pack("<HHHHH", 0x3E, 3, 0xFFFE, 9, 6) + b"\0" * 6
+              + struct.pack("<IIIIIIIII", 0, 1, 1, 0, 4096, EOC, 0, EOC, 0) + struct.pack("<I", 0) + struct.pack("<I", FREE) * 108)
+    body = struct.pack("<128I", *fat) + dirbytes + b"".join(streams[i][2] for i in sorted(streams))
+    return header + body
+
+
+def ole_marker_variants():
+    """[(label, extension, container bytes, expected verdict)]: compound files that carry / do not carry an Office encryption
+    marker -- as a stream or as a storage, in any spelling (CFB names compare case-insensitively)."""
+    out = []
+    filler = [("Some", b"unrelated stream")]
+    for ext in ("docx", "xlsx", "pptx", "ppt"):
+        out.append((f"no marker (.{ext})", ext, ole_bytes(filler + [("PowerPoint Document", b"\0" * 64)]), "not-encrypted"))
+        markers = ["EncryptionInfo", "EncryptedPackage", "DataSpaces"] + (["EncryptedSummary", "EncryptedSummaryInformation"] if ext == "ppt" else [])
+        for mk in markers:
+            for spelled in (mk, mk.upper(), mk.lower()):
+                out.append((f"stream {spelled!r} (.{ext})", ext, ole_bytes(filler + [(spelled, b"x" * 40)]), "encrypted"))
+            out.append((f"storage {mk!r} (.{ext})", ext, ole_bytes(filler + [(mk, [("Version", b"v" * 8)])]), "encrypted"))
+    for stream, spelled in (("Workbook", "Workbook"), ("Workbook", "WORKBOOK"), ("Book", "Book"), ("Book", "book")):
+        for enc in (False, True):
+            recs = [(0x0809, b"\0" * 16)] + ([(0x0086, b""), (0x002F, b"\0" * 6)] if enc else [(0x0042, b"\xe4\x04")]) + [(0x000A, b"")]
+            out.append((f"xls: {spelled} stream, FILEPASS={enc}", "xls", ole_bytes([(spelled, biff(recs))]), "encrypted" if enc else "not-encrypted"))
+    return out
+
+
 def biff(records, tail=b""):
     return b"".join(struct.pack("<HH", rid, len(p)) + p for rid, p in records) + tail
 
@@ -347,6 +419,32 @@ def sweep():
         for how, res in (("extractor", run(extractor_for(name), data, name)), ("read_file", run_read_file(data, name))):
             if res[0] != "encrypted" or res[1] != 0:
                 return fail(f"{how}:{name}", {"fixture": os.path.relpath(p, REPO)}, "ExtractionFileEncryptedError, 0 results before", str(res))
+    # 1b. OLE directory names are case-insensitive (olefile.exists, [MS-CFB]): the same protected packages with the
+    #     encryption stream names re-cased in place must still be rejected
+    for p in prot:
+        name = os.path.basename(p)
+        if not name.lower().endswith((".docx", ".xlsx", ".pptx")):
+            continue
+        raw = open(p, "rb").read()
+        for a, b in (("EncryptionInfo", "ENCRYPTIONINFO"), ("EncryptedPackage", "encryptedpackage")):
+            ua, ub = a.encode("utf-16-le"), b.encode("utf-16-le")
+            if raw.count(ua) != 1:
+                continue
+            data = raw.replace(ua, ub)
+            res = run(extractor_for(name), data, name)
+            if res[0] != "encrypted" or res[1] != 0:
+                return fail("extractor:" + name, {"fixture": os.path.relpath(p, REPO), "directory_entry_renamed": f"{a} -> {b}"},
+                            "ExtractionFileEncryptedError, 0 results", str(res))
+    # 1c. written compound files: every marker as stream / storage / other spelling; BIFF FILEPASS through the real olefile
+    import olefile
+    probe = ole_bytes([("Some", b"abc"), ("Dir", [("Inner", b"xyz")])])
+    with olefile.OleFileIO(io.BytesIO(probe)) as o_:
+        if not (o_.exists("some") and o_.exists("Dir/Inner") and o_.openstream("Some").read()[:3] == b"abc"):
+            return fail("builder", {"ole": "writer"}, "olefile reads back the written container", "builder broken")
+    for label, ext, data, want in ole_marker_variants():
+        for how, res in (("extractor", run(extractor_for("a." + ext), data, "a." + ext)), ("read_file", run_read_file(data, "a." + ext))):
+            if (res[0] == "encrypted") != (want == "encrypted") or (want == "encrypted" and res[1] != 0):
+                return fail(f"{how}:a.{ext}", {"compound_file": label}, want, str(res))
     # 2. every other fixture of a supported type: never rejected as encrypted
     from sharepoint2text.parsing.router import is_supported_file
     for p in sorted(glob.glob(os.path.join(RES, "**/*"), recursive=True)):
@@ -575,15 +673,22 @@ def embedded_pdfs(only=None):
             return json.loads(pr.stdout.strip().splitlines()[-1])
         except Exception:  # noqa
             return {"verdict": "other:reader crashed " + (pr.stderr or "")[-200:], "n": 0, "text": None}
-    base = read("plain")
-    if base["verdict"] != "ok" or "quarterly totals 1234" not in (base["text"] or ""):
-        return fail("read_pdf", {"stored_pdf": "plain"}, "extracts", str(base))
-    for key in sorted(k for k in docs if k != "plain"):
-        if only is not None and not any(key.startswith(o) for o in only):
+    from concurrent.futures import ThreadPoolExecutor
+    keys = sorted(k for k in docs if only is None or k.startswith("plain") or any(k.startswith(o) for o in only))
+    with ThreadPoolExecutor(max_workers=8) as pool:
+        got = dict(zip(keys, pool.map(read, keys)))
+    for pk in ("plain", "plain64"):
+        if pk in got and (got[pk]["verdict"] != "ok" or "quarterly totals 1234" not in (got[pk]["text"] or "")):
+            return fail("read_pdf", {"stored_pdf": pk}, "extracts", str(got[pk]))
+    for key in keys:
+        if key.startswith("plain"):
             continue
         algo, pw = key.split("|")
-        r = read(key)
+        r = got[key]
+        base = got["plain64" if "@64" in algo else "plain"]
         inp = {"stored_pdf": "replay/C08_pdfs.json[" + key + "]", "algorithm": algo, "user_password": "non-empty" if pw else "empty", "process": "fresh"}
+        if "@64" in algo:
+            inp["content_stream"] = "80 bytes = 5 whole AES blocks (PKCS#7 adds a full padding block)"
         if pw and (r["verdict"] != "encrypted" or r["n"] != 0):
             return fail("read_pdf", inp, "ExtractionFileEncryptedError, 0 results", f"{r['verdict']}, {r['n']} result(s)")
         if not pw and (r["verdict"] != "ok" or r["text"] != base["text"]):
@@ -614,8 +719,12 @@ for m in importers:
     c = getattr(mod, 'CryptAES', None)
     if c is not None:
         try:
-            if c(b'k' * 16).decrypt(c(b'k' * 16).encrypt(b'probe')) != b'probe':
-                stale.append(m + '.CryptAES (round trip)')
+            for n_ in range(0, 50):
+                msg = bytes((7 * i_ + n_) % 251 for i_ in range(n_))
+                back = c(b'k' * 16).decrypt(c(b'k' * 16).encrypt(msg))
+                if back != msg:
+                    stale.append(m + '.CryptAES: decrypt(encrypt(m)) != m for len(m) = %d (got %d bytes back)' % (n_, len(back)))
+                    break
         except Exception as e:
             stale.append(m + '.CryptAES (' + type(e).__name__ + ')')
 print(json.dumps({'provider': pypdf._crypt_providers.crypt_provider[0], 'returned': ret, 'importers': importers, 'stale': stale, 'stub': stub}))
@@ -645,8 +754,9 @@ def aes_patch_check():
     if pb["provider"] == "local_crypt_fallback" and (pb["returned"] is not True or pb["stale"]):
         r = embedded_pdfs(only=("AES-256",)) or embedded_pdfs(only=("AES-128",))
         rec = fail("patch_pypdf_fallback_aes", {"process": "fresh", "provider": pb["provider"]},
-                   "returns True and every pypdf module that bound the AES names resolves them to the built-in AES",
-                   f"returned {pb['returned']}; still pypdf's raising stubs: {pb['stale']}")
+                   "returns True, every pypdf module that bound the AES names resolves them to the built-in AES, and "
+                   "CryptAES.decrypt(CryptAES.encrypt(m)) == m for every length of m in 0..49",
+                   f"returned {pb['returned']}; not as expected after the patch: {pb['stale'][:4]}")
         if r is not None:
             rec["inputs"].update(r["inputs"])
             rec["observed"] += " -> read_pdf: " + r["observed"]
